@@ -262,44 +262,7 @@ func c03(c *core.Ctx) {
 			rW.Check(allowed[s.Caller.Key], s.Caller.Key+"->"+k, s.Call.Pos(), "known entry point (relies on the callee removing a leftover temp file itself)", "new compaction entry point: confirm it cannot run while a writer has the file open")
 		}
 	}
-	{
-		f := c.Fn(pkgChron + ".chroniclerV2.runCompactionLocked")
-		info := f.Info()
-		fl := core.NewFlow(p, info, f.Decl.Body)
-		var compact *ast.CallExpr
-		core.Calls(f.Decl.Body, false, func(call *ast.CallExpr) {
-			if core.IsWsCallTo(info, call, pkgV2+".Compactor.Compact") {
-				compact = call
-			}
-		})
-		ok := false
-		if compact != nil {
-			lc := fl.MustLocate(compact)
-			ast.Inspect(f.Decl.Body, func(x ast.Node) bool {
-				is, isIf := x.(*ast.IfStmt)
-				if !isIf {
-					return true
-				}
-				mentionsWriter := false
-				ast.Inspect(is.Cond, func(y ast.Node) bool {
-					if s, ok := y.(*ast.SelectorExpr); ok {
-						if fld := core.FieldOf(info, s); fld != nil && fld.Name() == "writer" {
-							mentionsWriter = true
-						}
-					}
-					return true
-				})
-				closes := len(core.FindCalls(is.Body, false, func(c2 *ast.CallExpr) bool { return core.IsWsCallTo(info, c2, pkgV2+".FileWriter.Close") })) > 0
-				if mentionsWriter && closes {
-					if l, found := fl.Locate(is.Cond); found && fl.Dominates(l, lc) {
-						ok = true
-					}
-				}
-				return true
-			})
-		}
-		rW.Check(ok, f.Key+":close-writer-before-compact", f.Decl.Pos(), "open writer closed first", "the file is compacted while the chronicler's writer may still be open: it keeps appending to the replaced inode")
-	}
+	closeBeforeCompact(c, rW)
 
 	rX := c.Rule("C03.excl", "chroniclerV2.writer, writerClosed, totalEntriesInFile and lastFragmentation are only touched with c.mu held (compaction and writes are mutually exclusive)", 20)
 	core.ReportGuarded(c, rX, core.CheckGuarded(p, core.GuardSpec{
@@ -710,4 +673,87 @@ func c29(c *core.Ctx) {
 		})
 	}
 	_ = nUses
+}
+
+// closeBeforeCompact: wherever the chronicler compacts its own file in place (a call to
+// Compactor.Compact from a chroniclerV2 method), the open writer is closed - and with it the
+// buffered entries flushed into the file that is about to be rewritten - before the compaction,
+// not after it and not by a defer: a call that closes the FileWriter (directly, or through a
+// helper of the package that does) dominates the Compact call, either itself or through the
+// `if writer open` test that guards it.
+func closeBeforeCompact(c *core.Ctx, r *core.Rule) {
+	p := c.P
+	// helpers of the chronicler package that close the writer on all paths where it is open
+	closers := map[*core.Func]bool{}
+	for _, g := range p.FuncsIn(pkgChron) {
+		if g.Decl.Body == nil {
+			continue
+		}
+		n := len(core.FindCalls(g.Decl.Body, false, func(c2 *ast.CallExpr) bool { return core.IsWsCallTo(g.Info(), c2, pkgV2+".FileWriter.Close") }))
+		if n > 0 {
+			closers[g] = true
+		}
+	}
+	nSites := 0
+	for _, f := range p.FuncsIn(pkgChron) {
+		if f.Decl.Body == nil || f.Decl.Recv == nil {
+			continue
+		}
+		info := f.Info()
+		var compact *ast.CallExpr
+		core.Calls(f.Decl.Body, false, func(call *ast.CallExpr) {
+			if core.IsWsCallTo(info, call, pkgV2+".Compactor.Compact") {
+				compact = call
+			}
+		})
+		if compact == nil {
+			continue
+		}
+		nSites++
+		c.Touch(f)
+		fl := core.NewFlow(p, info, f.Decl.Body)
+		lc := fl.MustLocate(compact)
+		ok := false
+		core.Calls(f.Decl.Body, false, func(call *ast.CallExpr) {
+			isClose := core.IsWsCallTo(info, call, pkgV2+".FileWriter.Close")
+			if t := p.ByObj[core.Callee(info, call)]; t != nil && closers[t] && t != f {
+				isClose = true
+			}
+			if !isClose {
+				return
+			}
+			for _, n := range core.PathTo(f.Decl.Body, call) {
+				if _, isDefer := n.(*ast.DeferStmt); isDefer {
+					return // runs after the compaction
+				}
+			}
+			if l, found := fl.Locate(call); found && fl.Dominates(l, lc) {
+				ok = true
+				return
+			}
+			// guarded by `if <writer is open>`: the test dominates the compaction
+			for _, n := range core.PathTo(f.Decl.Body, call) {
+				is, isIf := n.(*ast.IfStmt)
+				if !isIf || !(is.Body.Pos() <= call.Pos() && call.End() <= is.Body.End()) {
+					continue
+				}
+				mentionsWriter := false
+				ast.Inspect(is.Cond, func(y ast.Node) bool {
+					if sx, isSel := y.(*ast.SelectorExpr); isSel {
+						if fld := core.FieldOf(info, sx); fld != nil && (fld.Name() == "writer" || fld.Name() == "writerClosed") {
+							mentionsWriter = true
+						}
+					}
+					return true
+				})
+				if l, found := fl.Locate(is.Cond); mentionsWriter && found && fl.Dominates(l, lc) {
+					ok = true
+				}
+			}
+		})
+		r.Check(ok, f.Key+":close-writer-before-compact", f.Decl.Pos(), "open writer closed (buffer flushed) before the in-place compaction", "the file is compacted while the chronicler's writer is still open: the entries still buffered in it are flushed into the replaced inode afterwards and are lost; the writer keeps appending to a file that no longer has a name")
+	}
+	if nSites == 0 {
+		r.Bad(pkgChron+":in-place-compaction", token.NoPos, "no in-place compaction call site found in the chronicler")
+	}
 }
